@@ -153,6 +153,44 @@ def decHistOK (U : Universe) : (t : Track) → (h : List (World × Op)) → Deci
 
 instance (U : Universe) (t : Track) (h : List (World × Op)) : Decidable (histOK U t h) := decHistOK U t h
 
+/-- calls that may appear in a history in which unbuildable classes get evicted
+from the index: everything except `fetch` with an xsi:type, whose choice of the
+subclass to build reads the index by name -/
+def Op.evictionTolerant : Op → Bool
+  | .fetch _ _ x => !truthy x
+  | _ => true
+
+/-- calls whose *result* does not depend on which unbuildable classes have been
+evicted from the index (they never read the index by qualified name) -/
+def Op.evictionBlind : Op → Bool
+  | .build _ _ => true
+  | .serialize _ => true
+  | .findTypeByFields _ => true
+  | .buildXsiCache => true
+  | .reset => true
+  | .fetch _ _ x => !truthy x
+  | _ => false
+
+/-- the side conditions without `noEvict` -/
+def okStepW (U : Universe) (t : Track) (w : World) (op : Op) : Prop :=
+  consistent U (t.uses ++ opUses U w op) ∧ faithful (w :: t.worlds) ∧ op.evictionTolerant = true
+
+instance (U : Universe) (t : Track) (w : World) (op : Op) : Decidable (okStepW U t w op) :=
+  inferInstanceAs (Decidable (consistent U (t.uses ++ opUses U w op) ∧ faithful (w :: t.worlds) ∧
+    op.evictionTolerant = true))
+
+def histOKW (U : Universe) : Track → List (World × Op) → Prop
+  | _, [] => True
+  | t, (w, op) :: rest => okStepW U t w op ∧ histOKW U (t.next U w op) rest
+
+def decHistOKW (U : Universe) : (t : Track) → (h : List (World × Op)) → Decidable (histOKW U t h)
+  | _, [] => inferInstanceAs (Decidable True)
+  | t, (w, op) :: rest =>
+    have := decHistOKW U (t.next U w op) rest
+    inferInstanceAs (Decidable (okStepW U t w op ∧ histOKW U (t.next U w op) rest))
+
+instance (U : Universe) (t : Track) (h : List (World × Op)) : Decidable (histOKW U t h) := decHistOKW U t h
+
 /-- every class declares its own `Meta.namespace` -/
 def allDeclared (U : Universe) : Prop := ∀ d ∈ U.classes, d.ns.isSome = true
 
